@@ -998,6 +998,11 @@ func (o *outcome) judge(c *core.Ctx) string {
 			}
 			return fmt.Sprintf("LOST QUERY: %s failed with %q; no connection had been disturbed", desc(), r.err)
 		}
+		if t, ok := st.ended[rec.conn]; ok && !t.After(r.end) && !sc.hasFault() && !stalled(r.start, r.end) {
+			// the server closed nothing, refused nothing and answered every ping; whatever it still owed on
+			// this connection could not be delivered because the client gave the connection up by itself
+			return fmt.Sprintf("ANSWER LOST: %s failed with %q: the client dropped a connection that the server never disturbed and on which every ping was answered", desc(), r.err)
+		}
 		// "in time" = the client had the answer on its socket with ample time left before the deadline:
 		// 200 ms plus twenty times the scheduling delay the process showed during the call (an answer
 		// crosses about eight goroutine hand-overs inside the client)
@@ -1010,6 +1015,11 @@ func (o *outcome) judge(c *core.Ctx) string {
 			continue
 		}
 		if t, ok := st.ended[rec.conn]; ok && !t.After(r.end) {
+			if !sc.hasFault() && !stalled(r.start, r.end) {
+				// the server closed nothing, refused nothing and kept answering pings: the client gave up a
+				// healthy connection by itself and lost the answer that was owed on it
+				return fmt.Sprintf("ANSWER LOST: %s failed with %q; the server wrote the answer well before the deadline, never closed a connection and answered every ping, yet the client had dropped the connection by itself", desc(), r.err)
+			}
 			c.Class("error while a connection was down")
 			continue
 		}
@@ -1263,8 +1273,60 @@ var outageCheck = &core.Check{Name: "c12/long-outage", Quick: 1, Thorough: 24, F
 	return nil
 }}
 
+// c12/long-poll: on an otherwise idle client one or a few calls wait 10.5..14 s for their answers (the server
+// answers every ping meanwhile and closes nothing); the deadline of the calls is 18..20 s. Each call must
+// return its own answer. One scenario per case; real time dominates (11-15 s).
+var longPollCheck = &core.Check{Name: "c12/long-poll", Quick: 1, Thorough: 24, Fn: func(c *core.Ctx) error {
+	sc := &scenario{id: 8000 + c.Intn("id", 1000), keySeed: c.U64("keyseed"), workers: c.Range("connections", 1, 2)}
+	sc.timeout = time.Duration(c.Range("timeout.s", 18, 20)) * time.Second
+	callers := c.Range("callers", 1, 3)
+	for i := 0; i < callers; i++ {
+		var script []callScript
+		if c.Bool("warmup") {
+			script = append(script, callScript{kind: kNow, size: c.Intn("warmup.size", 40)})
+		}
+		script = append(script, callScript{kind: kDelay, delay: time.Duration(c.Range("delay.ms", 10500, 14000)) * time.Millisecond, size: c.Intn("size", 40)})
+		sc.calls = append(sc.calls, script)
+	}
+	// scenario.String and the server index callers' scripts by position: equal lengths
+	for i := range sc.calls {
+		for len(sc.calls[i]) < 2 {
+			sc.calls[i] = append([]callScript{{kind: kNow}}, sc.calls[i]...)
+		}
+	}
+	c.Note("scenario", sc.String())
+	c.NonTrivial(sc.String())
+	c.Class("answer withheld longer than the client's 10 s silence limit while pings are answered")
+	c.Checkpoint()
+	var o *outcome
+	if err := core.Protect(func() error { o = runScenario(sc); return nil }); err != nil {
+		return err
+	}
+	totalScenarios.Add(1)
+	totalCalls.Add(int64(len(o.calls)))
+	if v := o.judge(c); v != "" {
+		var sb strings.Builder
+		fmt.Fprintf(&sb, "%s\n  %v", v, sc)
+		for _, s := range o.notes {
+			fmt.Fprintf(&sb, "\n  note: %s", s)
+		}
+		if o.st != nil {
+			ev := o.st.srv.Events()
+			if len(ev) > 40 {
+				ev = ev[len(ev)-40:]
+			}
+			for _, e := range ev {
+				fmt.Fprintf(&sb, "\n  server %s dial %d: %s", e.At.Format("15:04:05.000"), e.Dial, e.What)
+			}
+		}
+		return fmt.Errorf("%s", sb.String())
+	}
+	return nil
+}}
+
 func TestProp(t *testing.T) {
 	t.Run("long-outage", func(t *testing.T) { core.Run(t, outageCheck) })
+	t.Run("long-poll", func(t *testing.T) { core.Run(t, longPollCheck) })
 	t.Run("batch", func(t *testing.T) {
 		core.Run(t, batchCheck)
 		core.Extra(batchCheck.Name, "scenarios", totalScenarios.Load())
@@ -1273,4 +1335,4 @@ func TestProp(t *testing.T) {
 	})
 }
 
-func TestReplay(t *testing.T) { core.Replay(t, batchCheck, outageCheck) }
+func TestReplay(t *testing.T) { core.Replay(t, batchCheck, outageCheck, longPollCheck) }
